@@ -38,6 +38,7 @@ fn fgt<T>(t: T) { core::mem::forget(t) }
 fn model_encode_check_to_fmt(_fmt: &mut core::fmt::Formatter, _data: &[u8]) -> core::fmt::Result { Ok(()) }
 fn model_xpub_encode(_x: &Xpub) -> [u8; 78] { [0u8; 78] }
 use std::fmt as sfmt;
+use core::cmp::Ord as OrdT;
 /// `format!` (the text of the MergeConflict message) is irrelevant to every assertion here and its machinery is expensive.
 fn model_format(_args: core::fmt::Arguments<'_>) -> String { String::new() }
 
@@ -350,9 +351,12 @@ fn c14_global_unknown_union() {
 }
 
 fn model_sort<T: Ord>(_v: &mut [T]) {}
+/// Every xpub used here differs from the others at most in `depth`.
+fn model_xpub_cmp(a: &Xpub, b: &Xpub) -> core::cmp::Ordering { a.depth.cmp(&b.depth) }
 #[kani::proof]
 #[kani::unwind(5)]
 #[kani::stub(zffi::secp256k1_ec_pubkey_cmp, model_ec_pubkey_cmp)]
 #[kani::stub(sfmt::format, model_format)]
 #[kani::stub(<[Tweak]>::sort, model_sort)]
+#[kani::stub(<XpubT as OrdT>::cmp, model_xpub_cmp)]
 fn zz_probe_case_conflict_2_1() { xpub_case::<2, 1>(Mode::Conflict); }
